@@ -1179,6 +1179,14 @@ def _extractor_function(beh):
     if callable(beh):
         return beh
     if "fields" in beh:
+        if beh.get("persistent"):
+            # like `lambda e: e.details`: the very same dict object every time it is asked about one exception
+            store = {}
+
+            def persistent(e):
+                return store.setdefault(id(e), (e, dict(beh["fields"])))[1]
+
+            return persistent
         return lambda e: dict(beh["fields"])
 
     def raising(e):
